@@ -10,6 +10,7 @@
 //     checked whenever exactly one is alive (against its measured stand-alone footprint) and at the end.
 // The same executable built with ASan+UBSan runs the same histories: a stale read or write during live use or
 // during destruction aborts the shard and the crash handler names the history.
+#include <cstdio>
 #include <memory>
 #include <sstream>
 #include <string>
@@ -248,6 +249,23 @@ namespace {
            auto* g = w.lex.make_general_substitution();
            g->subst(*p0, w.lit(0)).subst(*p1, w.lit(1)).subst(*p0, w.lit(1));
            (void) w.lex.make_instantiation(w.lit(0), *g); } },
+      { "bulk-tables", [](World& w) {
+           // one-sided trees: 80 spellings in descending and 80 in ascending order, a pointer tower of 60, 60 literals
+           char8_t buf[16];
+           for (int i = 79; i >= 0; --i) { std::snprintf(reinterpret_cast<char*>(buf), sizeof buf, "d%04d", i); (void) w.lex.get_identifier(buf); }
+           for (int i = 0; i < 80; ++i) { std::snprintf(reinterpret_cast<char*>(buf), sizeof buf, "u%04d", i); (void) w.lex.get_identifier(buf); (void) w.lex.get_literal(w.lex.int_type(), buf); }
+           const ipr::Type* t = &w.lex.char_type();
+           for (int i = 0; i < 60; ++i) t = &w.lex.get_pointer(*t);
+           for (int i = 0; i < 40; ++i) t = &w.lex.get_qualified(i % 2 ? w.lex.const_qualifier() : w.lex.volatile_qualifier(), w.lex.get_reference(*t)); } },
+      { "empty-sequences", [](World& w) {
+           { ipr::impl::Warehouse<ipr::Type> e; (void) w.lex.get_sum(e); (void) w.lex.get_product(e); }
+           { ipr::impl::Warehouse<ipr::Type> f; f.push_back(w.lex.int_type()); f.push_back(w.lex.char_type()); (void) w.lex.get_sum(f); (void) w.lex.get_product(f); }
+           ipr::impl::Warehouse<ipr::Type> g;
+           auto& s = w.lex.get_sum(g);
+           auto& p = w.lex.get_product(g);
+           if (s.size() != 0 or p.size() != 0) rep.count("empty_sequence_not_empty");
+           (void) w.lex.get_function(p, w.lex.void_type());
+           (void) w.lex.get_tor(p, s); } },
       { "inspect-units", [](World& w) {
            // read what every unit of this Lexicon refers to: all of it must be storage owned by this (live) Lexicon or constant
            auto look = [&](const ipr::Translation_unit& u) {
